@@ -470,7 +470,15 @@ def run(ctx):
                      'envelope interpolants: NOT proved, watched by the oracle sweep only (regression guard)')
     ctx.notes.append('emd conversions are compared with tolerance (the code multiplies by the double 2*pi); exact comparisons are '
                      'the numpy/scipy primitives on dyadic data, the quadrature sign rule, shapes and the phase range')
+    import time as _time
+    _t = [_time.time()]
+    timing = ctx.extra.setdefault('timing_s', {})
+
+    def lap(name):
+        timing[name] = round(_time.time() - _t[0], 1)
+        _t[0] = _time.time()
     ctx.proof(extra=['props/Prop_Tie_Freq.v'])  # translation tie: program regenerated from the source + refinement theorems
+    lap('proof')
     rs = np.random.RandomState(seed32(ctx, 1))
     bad = None          # first correspondence disagreement (site, input, observed, expected)
     reported = set()
@@ -496,10 +504,11 @@ def run(ctx):
                    None if exp is None else [float(v) for v in exp])
     ctx.sample(dict(primitive=names[prims[2][0]], values=prims[2][1]))
 
+    lap('twins')
     # ---- (2) emd conversions vs model (tolerance), with the function-level oracle
     conv = gen_conv(ctx, 300 if q else 5000)
     mo = ctx.model_outputs(IMPORTS, ['(%d, %s, %s, %s)' % (op, fr(sr), fr(ps), frl(v)) for op, sr, ps, v in conv],
-                           "fun c => let '(op, a, b, l) := c in run_freq op %s a b l" % fr(TWOPI), shard=300)
+                           "fun c => let '(op, a, b, l) := c in run_freq op %s a b l" % fr(TWOPI), shard=40)
     cname = {0: 'freq_from_phase', 1: 'phase_from_freq', 2: 'wrap_phase'}
     for (op, sr, ps, vals), m in zip(conv, mo):
         r = impl_conv(op, sr, ps, vals)
@@ -527,6 +536,7 @@ def run(ctx):
                    None if exp is None else exp.tolist())
     ctx.sample(dict(function=cname[conv[0][0]], sample_rate=conv[0][1], values=conv[0][3][:8]))
 
+    lap('conversions')
     # ---- (3) quadrature sign rule, exact
     nquad = 120 if q else 2500
     qcases, lits = [], []
@@ -572,6 +582,7 @@ def run(ctx):
     if qcases:
         ctx.sample(dict(quadrature_waveform=qcases[0][0][:, 0].tolist()))
 
+    lap('quad_mask')
     # ---- (4) pipeline trace + oracle on the same calls
     kinds = ['sin', 'amfm', 'noise', 'zero']
     npipe = 72 if q else 1500
@@ -618,6 +629,7 @@ def run(ctx):
                    dict(IP=IP.tolist(), IF=IF.tolist()), None if mp_ is None else dict(IP=mp_.tolist(), IF=mf.tolist()))
     ctx.sample(dict(pipeline_case=dict(method=pcases[0][0]['method'], smooth=pcases[0][0]['smooth'], n=len(pcases[0][2]))) if pcases else {})
 
+    lap('pipeline')
     # ---- oracle (a): phase range on the family that reaches the float corner (ascending zero crossing on a sample)
     nz = 150 if q else 3000
     for i in range(nz):
@@ -641,6 +653,7 @@ def run(ctx):
         if r:
             violation(r[0], r[1], inp, tags=dict(corner='wrap-2pi') if r[0] == SITE_RANGE else None)
 
+    lap('range')
     # ---- oracle (b): shapes / range / derivative on multi-column clean signals; scale invariance 2^k
     nsc = 60 if q else 1200
     n_exact = 0
@@ -671,6 +684,7 @@ def run(ctx):
             violation('frequency_transform scale invariance', '%s: %s' % (method, msg), inp)
     ctx.extra['scale_invariance'] = dict(cases=nsc, bit_exact=n_exact)
 
+    lap('scale')
     # ---- oracle (b2): IMF sets that end in a non-oscillatory column (sift residual), all methods
     nmix = 48 if q else 900
     for i in range(nmix):
@@ -695,6 +709,7 @@ def run(ctx):
             violation(r[0], r[1], inp, tags=dict(corner='wrap-2pi') if r[0] == SITE_RANGE else None)
     ctx.sample(dict(residual_case='cos(20 cycles), 0.5 cos(7 cycles), ramp 1.5..4.5; 256 samples; quad'))
 
+    lap('residual')
     # ---- oracle (c): round trip
     nrt = 60 if q else 1500
     for i in range(nrt):
@@ -717,6 +732,7 @@ def run(ctx):
         if msg:
             violation('freq_from_phase(phase_from_freq)', msg, dict(kind='roundtrip', f=[float(v).hex() for v in f], sample_rate=sr))
 
+    lap('roundtrip')
     # ---- oracle (d): accuracy sweep (regression guard)
     nacc = 130 if q else 4000
     ars = np.random.RandomState(seed32(ctx, 2))
@@ -736,6 +752,7 @@ def run(ctx):
                     worst[key] = max(worst.get(key, 0.), v)
             if msg:
                 violation('frequency_transform accuracy', msg, dict(kind='acc', case=case, method=method))
+    lap('accuracy')
     ctx.extra['accuracy'] = dict(
         note='regression guard, not a proof: tolerance = max(%g, %g x worst error measured on the reference tree)' % (ACC_FLOOR, ACC_FACTOR),
         reference_worst={'%s/%s/%s/%s' % k: v for k, v in sorted(ACC_WORST.items())},
